@@ -4,6 +4,7 @@
    proved over Model/CdpRunning.v.) *)
 From Coq Require Import List NArith.
 From FP Require Import Model.Base Model.ItsFsm Model.Rdh Model.Payload Model.CdpRunning Proofs.C12_proofs Proofs.C12_packet.
+From FP Require Gen.Facts.
 Import ListNotations.
 Open Scope N_scope.
 
@@ -69,6 +70,14 @@ Theorem C12_refuted_fmt0 :
              words_of (concat (map (fun w => w ++ [0;0;0;0;0;1]) ws)) <> Some ws.
 Proof. exact c12_refuted_fmt0. Qed.
 
+(* the thresholds and slot sizes of the payload preprocessing are the ones the model is written with -- re-read from
+   extract_payload_ff_padding (more than 15 bytes of 0xFF: error), chunkify_payload (16-byte slots for format 0; 10-byte words, the 0xFF run cut
+   when longer than 9) and detect_payload_data_format (bytes 10..15 all zero) on every run: a source with other numbers no longer type-checks here *)
+Theorem C12_payload_constants_as_modelled :
+  Gen.Facts.ff_padding_max = 15 /\ Gen.Facts.ff_padding_word_threshold = 9 /\
+  Gen.Facts.pin_chunk_sizes = [16; 10; 10] /\ Gen.Facts.pin_detect_format = [10; 6; 0; 6].
+Proof. repeat split; reflexivity. Qed.
+
 Example C12_nonvacuous :
   let ws := [w_ihw; [3;26;0;0;0;0;0;0;0;232]; [0;0;0;0;0;0;0;0;1;240]] in
   Forall word10 ws /\ last_not_ff (concat ws) /\ detect_fmt0 (concat ws ++ repeat 255 2) = false /\
@@ -87,3 +96,4 @@ Print Assumptions C12_packet_words.
 Print Assumptions C12_words_in_order.
 Print Assumptions C12_refuted_fmt2.
 Print Assumptions C12_refuted_fmt0.
+Print Assumptions C12_payload_constants_as_modelled.
